@@ -240,3 +240,58 @@ Definition r_step (cs : list (Z * rconn)) (o : rop) : list (Z * rconn) :=
   end.
 Definition r_init (cas : list Z) : list (Z * rconn) := map (fun ca => (ca, mkR [] false [] [])) cas.
 Definition r_run (cas : list Z) (ops : list rop) : list (Z * rconn) := fold_left r_step ops (r_init cas).
+
+(* ---------------- composite entry point: TcpServerStack.serviceAll, receive side ----------------
+   The ORDER of the steps inside serviceAll is a parameter (generated from the source on every
+   run into coq/gen/C36Order.v).  Connections carry no queued transmit data here (StTx / StSend
+   are then no-ops on the receive state).
+     StConnects  TcpServerStack.serviceConnects : every incomer whose .cutoff is set is closed and
+                 REMOVED together with whatever is still unparsed in its .rxbs (palive := false;
+                 pbuf keeps the lost bytes as a ghost)
+     StRecv      handler.serviceReceivesAllIx   : Incomer.serviceReceives on every live, not cut-off one
+     StRx        serviceAllRx : serviceReceives (whole buffer -> one packet) ; serviceRxPkts delivers
+                 it to the remote of that connection (pdel)                                    *)
+Inductive sstep := StConnects | StRecv | StRx | StTx | StSend.
+Record pconn := mkP { palive : bool; pbuf : bytes; pcut : bool; pgot : bytes; pdel : list bytes }.
+
+Definition p_connects (c : pconn) : pconn :=
+  if palive c && pcut c then mkP false (pbuf c) (pcut c) (pgot c) (pdel c) else c.
+Definition p_recv (c : pconn) (orc : list rres) : pconn :=
+  if palive c && negb (pcut c) then
+    let '(b, cu, rest) := conn_rx orc (pbuf c) in
+    mkP true b cu (pgot c ++ datas (consumed orc rest)) (pdel c)
+  else c.
+Definition p_rx (c : pconn) : pconn :=
+  if palive c then
+    match pbuf c with
+    | [] => c
+    | _ :: _ => mkP true [] (pcut c) (pgot c) (pdel c ++ [pbuf c])
+    end
+  else c.
+
+Definition p_step (orcs : list (Z * list rres)) (cs : list (Z * pconn)) (st : sstep) : list (Z * pconn) :=
+  match st with
+  | StConnects => map (fun kc => (fst kc, p_connects (snd kc))) cs
+  | StRecv => map (fun kc => (fst kc, p_recv (snd kc) (lookup (fst kc) orcs))) cs
+  | StRx => map (fun kc => (fst kc, p_rx (snd kc))) cs
+  | StTx | StSend => cs
+  end.
+
+Definition p_pass (order : list sstep) (cs : list (Z * pconn)) (orcs : list (Z * list rres)) : list (Z * pconn) :=
+  fold_left (p_step orcs) order cs.
+Definition p_init (cas : list Z) : list (Z * pconn) := map (fun ca => (ca, mkP true [] false [] [])) cas.
+Definition p_run (order : list sstep) (cas : list Z) (passes : list (list (Z * list rres))) : list (Z * pconn) :=
+  fold_left (p_pass order) passes (p_init cas).
+
+(* the order is safe when no serviceConnects runs while bytes read by StRecv are still unparsed
+   (dirty), and a pass ends with everything parsed *)
+Fixpoint order_check (order : list sstep) (dirty : bool) : option bool :=
+  match order with
+  | [] => Some dirty
+  | StConnects :: o => if dirty then None else order_check o false
+  | StRecv :: o => order_check o true
+  | StRx :: o => order_check o false
+  | (StTx | StSend) :: o => order_check o dirty
+  end.
+Definition order_ok (order : list sstep) : bool :=
+  match order_check order false with Some false => true | _ => false end.
